@@ -1,9 +1,212 @@
 import PersimVerif.Drv.Util
-/-! driver commands: Bottleneck (stub until the model lands) -/
+import PersimVerif.Model.Bottleneck
+/-!
+  driver commands for C01 (and the row extraction C06 reuses); everything runs at `Rat`.
+
+    bn <dgm1> <dgm2>            → [value, warn1, warn2]     model with the built-in oracle, SELF-CERTIFIED:
+                                   the answer is given only if `certOptB` accepts (perfect matching at the
+                                   value + vertex cover below it), otherwise `err:Uncertified`
+    bn.m <dgm1> <dgm2>          → [value, warn1, warn2, rows]   (`matching=True`)
+    spec.bn <dgm1> <dgm2>       → the specification by exhaustive enumeration of partial matchings
+                                   (finite parts of the diagrams; refuses M+N > 14 with `err:TooLarge`)
+    thr <dgm1> <dgm2> <d>       → threshold graph of the model at `d` (adjacency lists)
+    cands <dgm1> <dgm2>         → the candidate list `ds`
+    cert.matching <graph> <pairs> <size>   → T iff `pairs` is a matching of `graph` with `size` pairs
+    cert.cover <graph> <R> <C> <k>         → T iff (R, C) is a vertex cover of `graph` with |R|+|C| ≤ k
+    cert.opt <dgm1> <dgm2> <d> <pairs> <pred|none> <R> <C>  → T iff `certOptB` accepts (see Model/Bottleneck)
+
+  A diagram is `[[b,d],…]`, `d` may be `inf`/`-inf`/`nan` (dropped with the warning flag).
+  The built-in oracle (Kuhn's augmenting paths) is NOT verified; that is why `bn` certifies its answer with
+  the verified checkers — a wrong oracle can only produce `err:Uncertified`, never a wrong value.
+-/
 namespace PersimVerif.Drv.Bottleneck
-open PersimVerif Val PersimVerif.Drv
+open PersimVerif Val PersimVerif.Drv PersimVerif.Bottleneck
+
+/-! ### built-in maximum matching (Kuhn) and König cover — untrusted, certified per use -/
+
+partial def tryRow (g : Array (List Nat)) (i : Nat) (vis : Array Bool) (mc : Array (Option Nat)) :
+    Bool × Array Bool × Array (Option Nat) :=
+  go (g.getD i []) vis mc
+where
+  go : List Nat → Array Bool → Array (Option Nat) → Bool × Array Bool × Array (Option Nat)
+    | [], vis, mc => (false, vis, mc)
+    | j :: rest, vis, mc =>
+      if vis.getD j true then go rest vis mc
+      else
+        let vis := vis.setIfInBounds j true
+        match mc.getD j none with
+        | none => (true, vis, mc.setIfInBounds j (some i))
+        | some i' =>
+          let (ok, vis, mc) := tryRow g i' vis mc
+          if ok then (true, vis, mc.setIfInBounds j (some i)) else go rest vis mc
+
+/-- number of columns mentioned by the graph (at least the number of rows) -/
+def ncols (g : Graph) : Nat := g.foldl (fun a l => l.foldl (fun b j => max b (j + 1)) a) g.length
+
+/-- column → matched row -/
+def kuhnCols (g : Graph) : Array (Option Nat) := Id.run do
+  let ga := g.toArray
+  let nc := ncols g
+  let mut mc : Array (Option Nat) := Array.replicate nc none
+  for i in [0:ga.size] do
+    let (_, _, mc') := tryRow ga i (Array.replicate nc false) mc
+    mc := mc'
+  return mc
+
+def pairsOfCols (mc : Array (Option Nat)) : Matching :=
+  let ps := (mc.toList.zipIdx).filterMap fun (o, j) => o.map fun i => (i, j)
+  ps.mergeSort fun a b => a.1 ≤ b.1
+
+/-- the oracle handed to the model -/
+def kuhn (g : Graph) : Matching := pairsOfCols (kuhnCols g)
+
+/-- König: rows not reachable + columns reachable by alternating paths from the unmatched rows -/
+partial def koenig (g : Graph) (mc : Array (Option Nat)) : List Nat × List Nat :=
+  let ga := g.toArray
+  let n := ga.size
+  let nc := mc.size
+  let matchedRow : Array Bool := mc.foldl (fun a o => match o with | some i => a.setIfInBounds i true | none => a)
+    (Array.replicate n false)
+  let start := (List.range n).filter fun i => !(matchedRow.getD i false)
+  let rec loop (work : List Nat) (zr zc : Array Bool) : Array Bool × Array Bool :=
+    match work with
+    | [] => (zr, zc)
+    | i :: rest =>
+      let (work', zr', zc') := (ga.getD i []).foldl (fun (acc : List Nat × Array Bool × Array Bool) j =>
+        let (w, zr, zc) := acc
+        if zc.getD j true then acc
+        else
+          let zc := zc.setIfInBounds j true
+          match mc.getD j none with
+          | some i' => if zr.getD i' true then (w, zr, zc) else (i' :: w, zr.setIfInBounds i' true, zc)
+          | none => (w, zr, zc)) (rest, zr, zc)
+      loop work' zr' zc'
+  let zr0 := start.foldl (fun a i => a.setIfInBounds i true) (Array.replicate n false)
+  let (zr, zc) := loop start zr0 (Array.replicate nc false)
+  ((List.range n).filter fun i => !(zr.getD i false), (List.range nc).filter fun j => zc.getD j false)
+
+/-! ### parsing / rendering -/
+
+def death? : Val → Option (Option Rat)
+  | .inf _ => some none
+  | .nan => some none
+  | v => (asRat? v).map some
+
+def rawPoint? : Val → Option (Rat × Option Rat)
+  | .list (a :: b :: _) => do pure (← asRat? a, ← death? b)
+  | _ => none
+
+/-- `[]` and `[[]]` are the empty diagram (`np.array([[]])` has size 0) -/
+def rawDgm? : Val → Option (List (Rat × Option Rat))
+  | .list [.list []] => some []
+  | v => listOf? rawPoint? v
+
+def ext? : Val → Option (Ext Rat)
+  | .inf false => some .top
+  | v => (asRat? v).map .fin
+
+def ofExt : Ext Rat → Val
+  | .fin r => .num r
+  | .top => .inf false
+
+def pairs? : Val → Option Matching := listOf? fun v => pairOf? asNat? v
+def graph? : Val → Option Graph := listOf? (listOf? asNat?)
+def nats? : Val → Option (List Nat) := listOf? asNat?
+
+def ofRows (rows : List (Int × Int × Ext Rat)) : Val :=
+  .list (rows.map fun r => .list [ofInt r.1, ofInt r.2.1, ofExt r.2.2])
+
+/-! ### the specification, executable: exhaustive minimum over partial matchings -/
+
+def rabs (x : Rat) : Rat := if x < 0 then -x else x
+def specLinf (p q : Rat × Rat) : Rat := max (rabs (p.1 - q.1)) (rabs (p.2 - q.2))
+def specDiag (p : Rat × Rat) : Rat := (p.2 - p.1) / 2
+
+/-- all ways of removing one element: (element, rest) -/
+def picks : List (Rat × Rat) → List ((Rat × Rat) × List (Rat × Rat))
+  | [] => []
+  | x :: r => (x, r) :: (picks r).map fun (y, r') => (y, x :: r')
+
+/-- least over all partial matchings of the largest pairing cost (`cur` = largest so far) -/
+def specGo : List (Rat × Rat) → List (Rat × Rat) → Rat → Rat
+  | [], T, cur => T.foldl (fun a t => max a (specDiag t)) cur
+  | s :: S, T, cur =>
+    (picks T).foldl (fun best (t, T') => min best (specGo S T' (max cur (specLinf s t))))
+      (specGo S T (max cur (specDiag s)))
+
+def finitePart (d : List (Rat × Option Rat)) : List (Rat × Rat) :=
+  d.filterMap fun p => p.2.map fun e => (p.1, e)
+
+/-! ### self-certification of the model run -/
+
+/-- the largest candidate strictly below `b` -/
+def predOf (ds : List (Ext Rat)) (b : Ext Rat) : Option (Ext Rat) :=
+  (ds.filter fun x => !(decide (b ≤ x))).getLast?
+
+def certify (S T : List (Rat × Rat)) (b : Ext Rat) (mt : Matching) : Bool :=
+  let S' := withPlaceholder S
+  let T' := withPlaceholder T
+  let n := S'.length + T'.length
+  let D := augD S' T'
+  let pred := predOf (candidates n D) b
+  let (R, C) := match pred with
+    | none => ([], [])
+    | some d' => let g := thresholdGraph n D d'; koenig g (kuhnCols g)
+  certOptB n D b mt pred R C
 
 def handle : Handler
+  | "bn", [a, b] => do
+    let d1 ← rawDgm? a
+    let d2 ← rawDgm? b
+    match bottleneck kuhn d1 d2 with
+    | none => pure (err "IndexError")
+    | some r =>
+      if certify (filterFinite d1).1 (filterFinite d2).1 r.value r.matching then
+        pure (.list [ofExt r.value, ofBool r.warn1, ofBool r.warn2])
+      else pure (err "Uncertified")
+  | "bn.m", [a, b] => do
+    let d1 ← rawDgm? a
+    let d2 ← rawDgm? b
+    match bottleneckWithMatching kuhn d1 d2 with
+    | none => pure (err "KeyError")
+    | some (r, rows) =>
+      if certify (filterFinite d1).1 (filterFinite d2).1 r.value r.matching then
+        pure (.list [ofExt r.value, ofBool r.warn1, ofBool r.warn2, ofRows rows])
+      else pure (err "Uncertified")
+  | "spec.bn", [a, b] => do
+    let S := finitePart (← rawDgm? a)
+    let T := finitePart (← rawDgm? b)
+    if S.length + T.length > 14 then pure (err "TooLarge")
+    else pure (.num (specGo S T 0))
+  | "thr", [a, b, d] => do
+    let S := withPlaceholder (filterFinite (← rawDgm? a)).1
+    let T := withPlaceholder (filterFinite (← rawDgm? b)).1
+    let d ← ext? d
+    pure (.list ((thresholdGraph (S.length + T.length) (augD S T) d).map ofNats))
+  | "cands", [a, b] => do
+    let S := withPlaceholder (filterFinite (← rawDgm? a)).1
+    let T := withPlaceholder (filterFinite (← rawDgm? b)).1
+    pure (.list ((candidates (S.length + T.length) (augD S T)).map ofExt))
+  | "cert.matching", [g, m, k] => do
+    let g ← graph? g
+    let m ← pairs? m
+    let k ← asNat? k
+    pure (ofBool (isMatchingB g m && m.length == k))
+  | "cert.cover", [g, r, c, k] => do
+    let g ← graph? g
+    let R ← nats? r
+    let C ← nats? c
+    let k ← asNat? k
+    pure (ofBool (checkCover g R C && decide (R.length + C.length ≤ k)))
+  | "cert.opt", [a, b, d, m, p, r, c] => do
+    let S := withPlaceholder (filterFinite (← rawDgm? a)).1
+    let T := withPlaceholder (filterFinite (← rawDgm? b)).1
+    let d ← ext? d
+    let m ← pairs? m
+    let pred ← optOf? ext? p
+    let R ← nats? r
+    let C ← nats? c
+    pure (ofBool (certOptB (S.length + T.length) (augD S T) d m pred R C))
   | _, _ => none
 
 end PersimVerif.Drv.Bottleneck
